@@ -22,13 +22,17 @@
 
 using pbt::Ctx; using pbt::Bytes;
 
-struct Outcome5 { bool opened = false, all_accepted = false; Bytes file; std::vector<int> flags; std::string err; size_t calls = 0; };
+struct Outcome5 { bool opened = false, all_accepted = false; Bytes file; std::vector<int> flags; std::string err; size_t calls = 0; Bytes pre_file; std::vector<int> pre_flags; };
 
-static Outcome5 run(const Bytes &T0, int limit, const dl::Response &resp, const std::vector<size_t> &cuts, std::string *range_str_out = nullptr) {
+// `A` (optional): an older file the procedure copies matching chunks from before it asks the server (zckdl --source)
+static Outcome5 run(const Bytes &T0, int limit, const dl::Response &resp, const std::vector<size_t> &cuts, std::string *range_str_out = nullptr, const Bytes *A = nullptr) {
     Outcome5 o; int fd = lib::mkfd(T0, "tgt"); zckCtx *z = zck_create();
     if (!zck_init_read(z, fd)) { o.err = zck_get_error(z); zck_free(&z); close(fd); return o; }
     o.opened = true;
     (void)!zck_find_valid_chunks(z); zck_reset_failed_chunks(z);
+    if (A) { int sfd = lib::mkfd(*A, "src"); zckCtx *s = zck_create(); if (zck_init_read(s, sfd)) (void)!zck_copy_chunks(s, z); zck_free(&s); close(sfd); zck_reset_failed_chunks(z); }
+    for (zckChunk *ch = z->index.first; ch; ch = ch->next) o.pre_flags.push_back(ch->valid);
+    o.pre_file = lib::fd_bytes(fd);
     zckDL *d = zck_dl_init(z); zckRange *r = zck_get_missing_range(z, limit);
     if (r && zck_dl_set_range(d, r)) {
         if (range_str_out) { char *s = zck_get_range_char(z, r); *range_str_out = s ? s : ""; free(s); }
@@ -44,15 +48,19 @@ static std::string fstr(const std::vector<int> &v) { std::string s; for (int x :
 
 static void prop(Ctx &c) {
     gen::ZFileOpts o; o.max_chunks = 12; o.max_chunk = c.chance(2, 3) ? 24 : 400; o.allow_empty = false; o.allow_dups = c.rarely(4);
-    gen::ZFile B = gen::zfile(c, o); size_t n = B.nchunks();
+    gen::ZParams qb = gen::zparams(c, o); gen::ZFile B = gen::zfile_build(c, qb); size_t n = B.nchunks();
     // target: header + validity pattern
-    Bytes T0 = B.file; std::vector<int> want_valid(n, 1); std::string pat;
+    Bytes T0 = B.file; std::vector<int> want_valid(n, 1); std::string pat; Bytes T0_after;
     for (size_t i = 0; i < n; i++) { size_t off = B.off(i), cl = B.clen(i); if (!cl) { pat += "+"; continue; }
         uint64_t k = c.draw(3); if (k <= 1) { pat += "+"; continue; } want_valid[i] = 0; pat += "0";
         if (k == 2) std::fill(T0.begin() + off, T0.begin() + off + cl, 0); else for (size_t j = 0; j < cl; j++) T0[off + j] = (uint8_t)(T0[off + j] ^ 0xa5 ^ (uint8_t)j); }
     if (c.rarely(5)) { T0.resize(B.h.total_size); pat = "header-only"; for (size_t i = 0; i < n; i++) want_valid[i] = B.clen(i) == 0; }
     static const int lims[] = {-1, 1, 2, 3, 7, -1}; int limit = lims[c.pick(6)];
-    std::string range_str; { dl::Response none; Outcome5 p = run(T0, limit, none, {}, &range_str); if (!p.opened) c.fail("target-open", "target does not open: " + p.err); }
+    // an older version A sharing some of B's chunks, copied from before the request is computed (a third of the cases)
+    Bytes Afile; const Bytes *A = nullptr;
+    if (c.gver >= 2 && c.rarely(3)) { gen::ZParams qa = qb; qa.by_ref = false; qa.chunks.clear(); for (auto &ch : qb.chunks) if (c.boolean()) qa.chunks.push_back(ch); qa.chunks.push_back(gen::chunk_content(c, 300)); Afile = gen::zfile_build(c, qa).file; A = &Afile; pat += " after-copy-from-older-file"; c.label("copy-before-download"); }
+    std::string range_str; { dl::Response none; Outcome5 p = run(T0, limit, none, {}, &range_str, A); if (!p.opened) c.fail("target-open", "target does not open: " + p.err);
+        if (A) { want_valid = p.pre_flags; T0_after = p.pre_file; } }
     if (range_str.empty()) { c.label("nothing-missing"); c.desc << B.desc << " pattern=" << pat << " (nothing to request)"; return; }
     std::vector<dl::Range> rq; if (!dl::parse_ranges(range_str, rq)) c.fail("bad-range-string", "malformed range string " + range_str);
     // chunks covered by the request, in request order
@@ -68,12 +76,13 @@ static void prop(Ctx &c) {
     c.label(rq.size() == 1 ? "single-range" : "multipart"); if (corrupt >= 0) c.label("payload-corrupted");
 
     // ---- baseline (unfragmented)
-    Outcome5 base = run(T0, limit, resp, {});
+    Outcome5 base = run(T0, limit, resp, {}, nullptr, A);
+    const Bytes &S0 = A ? T0_after : T0;      // the target as it is when the response arrives
     auto in_request = [&](size_t pos) { for (auto &r : rq) if (pos >= r.s && pos <= r.e) return true; return false; };
     auto check_confined = [&](const Outcome5 &x, const char *what) {
-        if (x.file.size() != T0.size() && !(x.file.size() > T0.size() && T0.size() == B.h.total_size)) { /* header-only target grows when chunks are written */ }
-        size_t lim = std::min(x.file.size(), T0.size());
-        for (size_t p = 0; p < lim; p++) if (x.file[p] != T0[p] && !in_request(p)) c.fail("not-confined", std::string(what) + ": byte " + std::to_string(p) + " outside the requested extents was modified (header is " + std::to_string(B.h.total_size) + " bytes)");
+        if (x.file.size() != S0.size() && !(x.file.size() > S0.size() && S0.size() == B.h.total_size)) { /* header-only target grows when chunks are written */ }
+        size_t lim = std::min(x.file.size(), S0.size());
+        for (size_t p = 0; p < lim; p++) if (x.file[p] != S0[p] && !in_request(p)) c.fail("not-confined", std::string(what) + ": byte " + std::to_string(p) + " outside the requested extents was modified (header is " + std::to_string(B.h.total_size) + " bytes)");
         for (size_t p = lim; p < x.file.size(); p++) if (!in_request(p) && x.file[p] != 0) c.fail("not-confined", std::string(what) + ": byte " + std::to_string(p) + " beyond the old end of the target and outside the request was written");
     };
     if (corrupt < 0) {
@@ -97,7 +106,7 @@ static void prop(Ctx &c) {
     uint64_t runs = 1, nontriv = 0; bool is_mp = rq.size() > 1;
     auto interesting = [&](size_t cutpos) { for (size_t k = 0; k + 1 < resp.part_header_spans.size(); k += 2) if (cutpos > resp.part_header_spans[k] && cutpos < resp.part_header_spans[k + 1]) return true; return false; };
     auto one = [&](const std::vector<size_t> &cuts) {
-        Outcome5 x = run(T0, limit, resp, cuts); runs++;
+        Outcome5 x = run(T0, limit, resp, cuts, nullptr, A); runs++;
         bool nt = (is_mp || covered.size() >= 2); bool incut = false; for (size_t p : cuts) if (interesting(p)) incut = true; if (nt && (incut || !is_mp)) nontriv++;
         std::string cs; for (size_t k = 0; k < cuts.size() && k < 6; k++) cs += std::to_string(cuts[k]) + " "; if (cuts.size() > 6) cs += "...(" + std::to_string(cuts.size()) + " cuts)";
         if (x.all_accepted != base.all_accepted) { c.extra_evals = runs; c.fail("fragmentation-changes-acceptance", "cut at {" + cs + "}: delivery " + (x.all_accepted ? "accepted" : "refused (" + x.err + ")") + ", unfragmented delivery " + (base.all_accepted ? "accepted" : "refused")); }
